@@ -328,9 +328,9 @@ func genCustom(n int) {
 // ---- C01: adversarial sizes ----------------------------------------------------------------------------
 
 func genBig(thorough bool) {
-	n := 2000
+	n := 300
 	if thorough {
-		n = 10000
+		n = 2500
 	}
 	rep := func(s string, k int) string { return strings.Repeat(s, k) }
 	shapes := map[string]string{
@@ -383,9 +383,94 @@ var corpusQueries = []string{
 }
 
 func genCorpus() {
+	emitQ(strings.Repeat("n", 70)+":1", "", "src=corpus")
+	emitQ("f:b\\*", "", "rel=C08e;f=66;w=622a")
+	emitQ("a\\", "", "rel=C09ws;g=0;role=a")
+	emitQ("a\\ ", "", "rel=C09ws;g=0;role=b")
+	emitQ(`a:"*"`, "", "rel=C08q;f=61;w=2a")
 	for _, q := range corpusQueries {
 		for _, df := range []string{"", "d"} {
 			emitQ(q, df, "src=corpus")
 		}
+	}
+}
+
+// ---- C02: hostile field names and values -------------------------------------------------------------------
+
+var hostile = []string{`"`, `'`, `''`, `;`, `--`, `/*`, `*/`, `)`, `(`, ` OR `, ` = `, `"a" OR "b`, `' OR '1'='1`, `\`, "\x00", "\xff", "\xc3", `$1`, `?`, `%`, `_`, `E'x'`, `U&"d"`,
+	`$$`, "\n", "\t", `a`, `b1`, `é`, `NaN`, `Inf`, `1e6`, `::int`, `pg_sleep(1)`, `0x10`, `1_000`, `--c\n`, `/* c */`, `x y`, `,`, `[`, `]`, `{`, `}`, `TO`, `AND`}
+
+func hostileText(parts int) string {
+	n := 1 + rng.Intn(parts)
+	var sb strings.Builder
+	for i := 0; i < n; i++ {
+		sb.WriteString(pick(hostile))
+	}
+	return sb.String()
+}
+
+func escAll(w string) string { // backslash before every byte-level special, so that any text becomes one word
+	var sb strings.Builder
+	for _, r := range w {
+		if isSpecial(r) || r == utf8.RuneError {
+			sb.WriteByte('\\')
+		}
+		sb.WriteRune(r)
+	}
+	s := sb.String()
+	switch strings.ToUpper(s) {
+	case "AND", "OR", "NOT", "TO":
+		return `\` + s
+	}
+	return s
+}
+
+func genInject(n int) {
+	long := strings.Repeat("n", 70)
+	emitQ(long+":1", "", "src=inject")
+	emitQ("a:1", long, "src=inject")
+	for i := 0; i < n; i++ {
+		f := hostileText(3)
+		v := hostileText(3)
+		if !utf8.ValidString(f) {
+			f = strings.ToValidUTF8(f, "")
+		}
+		if f == "" {
+			f = "f"
+		}
+		fw := escAll(f)
+		var vw string
+		if strings.Contains(v, `"`) || rng.Intn(3) == 0 {
+			vw = escAll(strings.ToValidUTF8(v, "?"))
+			if vw == "" {
+				vw = "v"
+			}
+		} else {
+			vw = `"` + v + `"`
+		}
+		df := ""
+		if rng.Intn(3) == 0 {
+			df = hostileText(2)
+		}
+		var q string
+		switch rng.Intn(8) {
+		case 0:
+			q = fw + ":" + vw
+		case 1:
+			q = fw + ":>" + vw
+		case 2:
+			q = fw + ":[" + vw + " TO " + vw + "]"
+		case 3:
+			q = fw + ":(" + vw + " OR " + vw + ")"
+		case 4:
+			q = vw + " AND NOT " + fw + ":" + vw
+		case 5:
+			q = fw + ":{* TO " + vw + "}"
+		case 6:
+			q = "-" + fw + ":" + vw + "* OR " + fw + ":/" + strings.ReplaceAll(strings.ToValidUTF8(v, ""), "/", "") + "/"
+		default:
+			q = vw
+		}
+		emitQ(q, df, "src=inject")
 	}
 }
